@@ -137,36 +137,7 @@ func ruleC10(c *Ctx) {
 			}
 		}
 	}
-	// 64-bit decimal parsing of revision counts
-	n := 0
-	for _, fn := range prodFns(c.P) {
-		R := NewRenderer(fn)
-		for _, in := range AnyCallsTo(fn, "strconv.ParseInt") {
-			cl, ok := in.(*ssa.Call)
-			if !ok {
-				continue
-			}
-			a0 := R.V(cl.Call.Args[0])
-			rel := strings.Contains(a0, "RevCount") || strings.Contains(a0, "RevisionCounter") || strings.Contains(a0, ".Counter") ||
-				strings.Contains(FnName(fn), "RevisionCounter") || strings.Contains(FnName(fn), "UpdateCloneInfo")
-			if !rel {
-				continue
-			}
-			n++
-			base, _ := intConst(cl.Call.Args[1])
-			bits, okb := intConst(cl.Call.Args[2])
-			key := FnName(fn) + " | ParseInt(" + a0 + ")"
-			if base == 10 && okb && (bits == 64 || bits == 0) {
-				c.OK(rule, key, c.P.InstrPos(in), "revision count parsed as a 64-bit decimal", false)
-			} else {
-				c.Bad(rule, key, c.P.InstrPos(in), fmt.Sprintf("revision count parsed with base %d bitSize %d: counts above the range saturate and compare equal", base, bits), nil)
-			}
-		}
-	}
-	if n < 5 {
-		c.Undecided(rule, "vacuity-floor ParseInt", "", fmt.Sprintf("only %d revision-count parse sites found", n))
-	}
-	c.Floor(rule, 30)
+	c.Floor(rule, 24)
 }
 
 // ---------------------------------------------------------------------------
@@ -519,4 +490,141 @@ func ruleC16Repl(c *Ctx) {
 		c.Guard(rule, f, CallsTo(f, fRep+"Resize"), "replica resize", isUnlockCall, Need{Desc: "server write lock taken", Instr: isWLockCall}, atom("replica open", "+$0.r -nil !=0"))
 	}
 	c.Floor(rule, 10)
+}
+
+func ruleRevParse(rule string) ruleFn {
+	return func(c *Ctx) {
+		c.Doc(rule, "every strconv.ParseInt that decodes a revision count (operand or enclosing function names a RevCount / RevisionCounter / Counter) uses base 10 and 64 bits: narrower widths saturate large counts, which then compare equal in the election / conflict detection")
+	n := 0
+	for _, fn := range prodFns(c.P) {
+		R := NewRenderer(fn)
+		for _, in := range AnyCallsTo(fn, "strconv.ParseInt") {
+			cl, ok := in.(*ssa.Call)
+			if !ok {
+				continue
+			}
+			a0 := R.V(cl.Call.Args[0])
+			rel := strings.Contains(a0, "RevCount") || strings.Contains(a0, "RevisionCounter") || strings.Contains(a0, ".Counter") ||
+				strings.Contains(FnName(fn), "RevisionCounter") || strings.Contains(FnName(fn), "UpdateCloneInfo")
+			if !rel {
+				continue
+			}
+			n++
+			base, _ := intConst(cl.Call.Args[1])
+			bits, okb := intConst(cl.Call.Args[2])
+			key := FnName(fn) + " | ParseInt(" + a0 + ")"
+			if base == 10 && okb && (bits == 64 || bits == 0) {
+				c.OK(rule, key, c.P.InstrPos(in), "revision count parsed as a 64-bit decimal", false)
+			} else {
+				c.Bad(rule, key, c.P.InstrPos(in), fmt.Sprintf("revision count parsed with base %d bitSize %d: counts above the range saturate and compare equal", base, bits), nil)
+			}
+		}
+	}
+	if n < 5 {
+		c.Undecided(rule, "vacuity-floor ParseInt", "", fmt.Sprintf("only %d revision-count parse sites found", n))
+	}
+	}
+}
+
+// ---------------------------------------------------------------------------
+// C12-CHAINLEN / C12-PUBLISH
+// ---------------------------------------------------------------------------
+
+func ruleC12Chain(c *Ctx) {
+	const rule = "C12-CHAINLEN"
+	c.Doc(rule, "sibling agreement of the chain-length limits: createDisk accepts a new disk when len(activeDiskData)+1 <= max (so the longest chain it builds has max-1 files) and openLiveChain must accept every chain createDisk can build: its refusal bound len(chain)+c2 > max needs c2 <= c1 where createDisk refuses on len(activeDiskData)+c1 > max")
+	cd, ol := c.Anchor(rule, fRep+"createDisk"), c.Anchor(rule, fRep+"openLiveChain")
+	if cd == nil || ol == nil {
+		return
+	}
+	find := func(fn *ssa.Function, lenTerm string) (int64, bool) {
+		R := NewRenderer(fn)
+		for _, ea := range allAtoms(fn, R) {
+			a := ea.Atom
+			if a.Op != ">=0" {
+				continue
+			}
+			// accept edge:  -len(X) + MAX - k >= 0
+			if a.L.T[lenTerm] == -1 && a.L.T["phi{1024 | types.MaxChainLength}"] == 1 && len(a.L.T) == 2 {
+				return -a.L.K, true
+			}
+		}
+		return 0, false
+	}
+	c1, ok1 := find(cd, "len($0.activeDiskData)")
+	c2, ok2 := find(ol, "len("+fRep+"Chain($0)#0)")
+	if !ok1 || !ok2 {
+		c.Undecided(rule, "chain length limits", "", "could not read the two chain-length guards")
+		return
+	}
+	// createDisk: accepts iff A + c1 <= M with A = files+1 (index 0 unused) -> files_after = A <= M - c1
+	// openLiveChain: accepts iff D + c2 <= M
+	if c2 <= c1 {
+		c.OK(rule, "openLiveChain accepts every chain createDisk builds", c.P.Pos(ol.Pos()), fmt.Sprintf("createDisk refuses above max-%d, openLiveChain above max-%d", c1, c2), true)
+	} else {
+		c.Bad(rule, "openLiveChain accepts every chain createDisk builds", c.P.Pos(ol.Pos()), fmt.Sprintf("createDisk lets the chain grow to max-%d files but openLiveChain refuses chains longer than max-%d: a replica filled by its own accepted snapshots cannot be reopened", c1, c2), nil)
+	}
+	if rm := c.Anchor(rule, fRep+"GetRemainSnapshotCounts"); rm != nil {
+		R := NewRenderer(rm)
+		okr := false
+		for _, r := range Returns(rm) {
+			if R.V(r.Results[0]) == "(-len($0.activeDiskData) +phi{1024 | types.MaxChainLength})" {
+				okr = true
+			}
+		}
+		if okr {
+			c.OK(rule, "remaining snapshot count = max - len(activeDiskData)", c.P.Pos(rm.Pos()), "", false)
+		} else {
+			c.Bad(rule, "remaining snapshot count = max - len(activeDiskData)", c.P.Pos(rm.Pos()), "the advertised remaining-snapshot count no longer matches createDisk's limit", nil)
+		}
+	}
+}
+
+func ruleC12Publish(c *Ctx) {
+	const rule = "C12-PUBLISH"
+	c.Doc(rule, "createDisk and markDiskAsRemoved: no error return is reachable after the in-memory chain (diskData, diskChildrenMap, activeDiskData, volume.files, a *disk's attributes) was modified, i.e. memory is published only after the on-disk commit (or rolled back)")
+	for _, name := range []string{fRep + "createDisk", fRep + "markDiskAsRemoved"} {
+		fn := c.Anchor(rule, name)
+		if fn == nil {
+			continue
+		}
+		R := NewRenderer(fn)
+		isMut := func(in ssa.Instruction) bool {
+			switch x := in.(type) {
+			case *ssa.MapUpdate:
+				m := R.V(x.Map)
+				return m == "$0.diskData" || m == "$0.diskChildrenMap"
+			case *ssa.Store:
+				a := R.V(x.Addr)
+				return strings.HasPrefix(a, "&$0.diskData[") || a == "&$0.activeDiskData" || a == "&$0.volume.files" || strings.HasPrefix(a, "&$0.activeDiskData[")
+			case *ssa.Call:
+				return callMatches(x, fRep+"addChildDisk") || callMatches(x, fRep+"updateChildDisk") || (callMatches(x, "builtin:delete") && R.V(x.Call.Args[0]) == "$0.diskData")
+			}
+			return false
+		}
+		// error returns reachable with a mutation behind them
+		seen := map[string]bool{}
+		for _, r := range Returns(fn) {
+			ei := errResultIndex(fn)
+			if ei < 0 || isNilConst(strip(r.Results[ei])) {
+				continue
+			}
+			ws := Query{Fn: fn, StartHeld: true, Kill: isMut, IsSite: func(in ssa.Instruction) bool { return in == ssa.Instruction(r) }}.Run()
+			what := R.V(r.Results[ei])
+			if i := strings.Index(what, "("); i > 0 {
+				what = what[:i]
+			}
+			key := name + " | error return after in-memory publication | " + what
+			if seen[key] {
+				continue
+			}
+			seen[key] = true
+			if len(ws) == 0 {
+				c.OK(rule, key, c.P.InstrPos(r), "no in-memory chain mutation precedes this error return", true)
+			} else {
+				c.Bad(rule, key, c.P.InstrPos(r), "the in-memory chain was already modified when this error is returned: the failed operation leaves memory and disk disagreeing until the next reopen", c.witness(ws[0]))
+			}
+		}
+	}
+	c.Floor(rule, 6)
 }
